@@ -241,7 +241,7 @@ impl Ctx {
 
     pub fn note(&mut self, s: impl Into<String>) {
         let s = s.into();
-        if !self.st.notes.contains(&s) {
+        if !self.st.notes.contains(&s) && self.st.notes.len() < 12 {
             self.st.notes.push(s);
         }
     }
@@ -338,20 +338,44 @@ impl Ctx {
     /// property (C04, C07) and with a limit that is orders of magnitude above the normal duration.
     /// A child that dies from a signal is reported as `<hang_signature>.crash`.
     pub fn forked(limit: Duration, hang_signature: &str, f: impl FnOnce(&mut Obs) -> Result<(), Failure>) -> (Obs, Result<(), Failure>) {
+        let (obs, r) = Self::forked_value(limit, hang_signature, false, |obs| f(obs).map(|_| Value::Null));
+        (obs, r.map(|_| ()))
+    }
+
+    /// Like `forked`, but the case hands a JSON value back to the caller, and with `capture_stderr`
+    /// the child's stderr goes to a scratch file whose tail is appended to the message of a
+    /// `<hang_signature>.crash` failure (so that an abort can be classified by what it printed).
+    pub fn forked_value(limit: Duration, hang_signature: &str, capture_stderr: bool, f: impl FnOnce(&mut Obs) -> Result<Value, Failure>) -> (Obs, Result<Value, Failure>) {
         let mut fds = [0i32; 2];
         if unsafe { libc::pipe(fds.as_mut_ptr()) } != 0 {
             let mut obs = Obs::default();
             let r = Self::guarded(|| f(&mut obs));
             return (obs, r);
         }
+        let errfile = crate::util::run_dir().join(format!("forked-stderr-{}", std::process::id()));
         let pid = unsafe { libc::fork() };
         if pid == 0 {
             unsafe { libc::close(fds[0]) };
+            if capture_stderr {
+                if let Ok(c) = std::ffi::CString::new(errfile.to_string_lossy().as_bytes()) {
+                    let fd = unsafe { libc::open(c.as_ptr(), libc::O_CREAT | libc::O_WRONLY | libc::O_TRUNC, 0o600) };
+                    if fd >= 0 {
+                        unsafe {
+                            libc::dup2(fd, 2);
+                            libc::close(fd);
+                        }
+                    }
+                }
+            }
             let mut obs = Obs::default();
             let r = Self::guarded(|| f(&mut obs));
+            let (value, failure) = match r {
+                Ok(v) => (v, None),
+                Err(f) => (Value::Null, Some(json!({"signature": f.signature, "message": f.message}))),
+            };
             let j = json!({
                 "nontrivial": obs.nontrivial, "discarded": obs.discarded, "classes": obs.classes,
-                "failure": r.err().map(|f| json!({"signature": f.signature, "message": f.message})),
+                "failure": failure, "value": value,
             });
             let b = serde_json::to_vec(&j).unwrap_or_default();
             let mut off = 0;
@@ -396,7 +420,10 @@ impl Ctx {
                 let cpu_s = (ticks(11) + ticks(12) + ticks(13) + ticks(14)) / 100;
                 let status = std::fs::read_to_string(format!("/proc/{pid}/status")).unwrap_or_default();
                 let vol = status.lines().find_map(|l| l.strip_prefix("voluntary_ctxt_switches:")).and_then(|v| v.trim().parse::<u64>().ok()).unwrap_or(0);
-                if cpu_s > 40 || vol > 100_000 {
+                // "far more CPU than any terminating case": a case that is given `limit` normally takes
+                // a small fraction of it, so 2 x limit of pure CPU time (at most 40 s) is a spin
+                let hang_cpu = (limit.as_secs() * 2).clamp(3, 40);
+                if cpu_s > hang_cpu || vol > 100_000 {
                     timed_out = true;
                     progress_note = format!("cpu {cpu_s} s, {vol} voluntary context switches");
                     break;
@@ -453,13 +480,25 @@ impl Ctx {
                 }
                 let r = match j.get("failure") {
                     Some(Value::Object(o)) => Err(Failure::new(o["signature"].as_str().unwrap_or("?"), o["message"].as_str().unwrap_or("?"))),
-                    _ => Ok(()),
+                    _ => Ok(j.get("value").cloned().unwrap_or(Value::Null)),
                 };
+                if capture_stderr {
+                    let _ = std::fs::remove_file(&errfile);
+                }
                 (obs, r)
             }
             Err(_) => {
                 let why = if libc::WIFSIGNALED(status) { format!("signal {}", libc::WTERMSIG(status)) } else { format!("status {status:#x}") };
-                (obs, Err(Failure::new(format!("{hang_signature}.crash"), format!("the process running the case died ({why}) without reporting a result"))))
+                let mut said = String::new();
+                if capture_stderr {
+                    if let Ok(b) = std::fs::read(&errfile) {
+                        let t = String::from_utf8_lossy(&b).to_string();
+                        let tail: String = t.chars().rev().take(1500).collect::<Vec<_>>().into_iter().rev().collect();
+                        said = format!("; its last words on stderr: {}", tail.trim());
+                    }
+                    let _ = std::fs::remove_file(&errfile);
+                }
+                (obs, Err(Failure::new(format!("{hang_signature}.crash"), format!("the process running the case died ({why}) without reporting a result{said}"))))
             }
         }
     }
@@ -968,7 +1007,8 @@ pub fn main(spec: Spec, body: fn(&mut Ctx)) -> ! {
         "coverage": Value::Object(coverage),
         "assumptions": spec.assumptions, "wall_s": wall, "violations": nviol,
     });
-    let evdir = verif_root().join("evidence");
+    // seeded-change runs (tools/seeded_run.sh) must not overwrite the evidence of the unchanged tree
+    let evdir = std::env::var("VERIF_EVIDENCE_DIR").map(PathBuf::from).unwrap_or_else(|_| verif_root().join("evidence"));
     std::fs::create_dir_all(&evdir).ok();
     if a.part.is_none() {
         std::fs::write(evdir.join(format!("{}.json", spec.prop)), serde_json::to_vec_pretty(&ev).unwrap()).ok();
